@@ -5,7 +5,7 @@
    plus a small interpreter of bundles of AddRecord/BulkAddRecord, UpdateRecord/BulkUpdateRecord and
    RemoveRecord/BulkRemoveRecord over tables that each have a Ref column R and a RefList column L, which is what
    harness/props/c26.py compares with the real engine (retValues, row ids and R/L cells of every table).
-   The id-filling loop is Model/RowIds.fill (proved equal to the loop translated from the source).
+   Ids are allocated by Model/RowIds.alloc (proved equal to the loops translated from the source).
    Model only: no proofs here. *)
 From Coq Require Import ZArith List Bool.
 Import ListNotations.
@@ -203,7 +203,7 @@ Definition step (s : schema) (st : state) (a : action) : py_result (state * retv
   match a with
   | AAdd t ids rv lv =>
       let tb := get_table d t in
-      match fill (next_row_id (table_ids tb)) ids with
+      match alloc (next_row_id (table_ids tb)) ids with
       | PyErr e => PyErr e
       | PyOk out =>
           (* the mapping is recorded before values are converted: a row may refer to itself *)
